@@ -228,10 +228,18 @@ class VC:
         self.loops = loops or {}
         self.comps = comps or {}
 
+    def resolve_loop(self, key, it):
+        """cut_loops='auto': the sidecar picks the loop contract from the VALUE being iterated (robust against
+        reordered / restructured loops); default: none"""
+        return None
+
     def loop(self, key, it, locs, assigned):
-        if key not in self.loops:
-            self.ctx.unsupported(f"no loop contract for {key}")
-        return _LoopRT(self, key, self.loops[key], it, locs, assigned)
+        c = self.loops.get(key)
+        if c is None:
+            c = self.resolve_loop(key, it)
+        if c is None:
+            self.ctx.unsupported(f"no loop contract for loop {key} over {type(it).__name__}")
+        return _LoopRT(self, key, c, it, locs, assigned)
 
     def comp(self, key, it, elt, cond):
         h = getattr(it, "__vc_comp__", None)
@@ -285,6 +293,8 @@ class RangeLoop(LoopContract):
         self.i = ctx.fresh(IntS, "i")
         start = _i(it.start)
         ctx.assume(self.i >= start)
+        # semantics of range(start, stop): the index never passes max(start, stop)
+        ctx.assume(z3.Or(self.i <= _i(it.stop), self.i == start))
         ctx.assume(self.inv(ctx, self.i))
         return {}
 
